@@ -1,6 +1,8 @@
 package graphql
 
 import (
+	"errors"
+
 	"github.com/graphql-go/graphql/language/printer"
 )
 
@@ -46,8 +48,36 @@ func zzPoolQuery(i int, step string) string {
 		return "{ x:a }"
 	case 15:
 		return "{ ...S } fragment S on Query @skip(if:true){ a }" // directive on a fragment definition is not valid for skip; kept to exercise invalid documents
+	case 16:
+		return "{ s(t:\"a  b\") }" // white space inside a string literal is significant
+	case 17:
+		return "{ s(t:\"a b\") }"
+	case 18:
+		return "{ a #x\n b\n}" // the line break ends the comment
+	case 19:
+		return "{ a #x b\n}"
+	case 20:
+		return "query A{ a } query B{ b }"
+	case 21:
+		return "query A{ a } query B{ nope }" // the other operation is invalid: the document is
+	case 22:
+		return "query A{ a } fragment U on Query{ b }" // unused fragment: invalid document
+	case 23:
+		return "query A{ a }"
+	case 24:
+		return "{ i(v:1) o{ynn} }" // ynn fails in zzC06World: error locations must be this request's
+	case 25:
+		return "{ i(v:100) o{ynn} }"
 	}
 	return "{ a }"
+}
+
+// zzPoolOp: the operation name to request for pool entry i.
+func zzPoolOp(i int) string {
+	if i >= 20 && i <= 23 {
+		return "A"
+	}
+	return ""
 }
 
 // zzNameString: n symbolic bytes restricted to characters that may appear inside a string literal unescaped.
@@ -60,11 +90,36 @@ func zzNameString(name string, n int) string {
 	return s
 }
 
-const zzPoolSize = 16
+const zzPoolSize = 26
+
+func zzSameResultNoLoc(a, b *Result) bool {
+	if len(a.Errors) != len(b.Errors) || (a.Data == nil) != (b.Data == nil) {
+		return false
+	}
+	for i := range a.Errors {
+		if a.Errors[i].Message != b.Errors[i].Message || len(a.Errors[i].Path) != len(b.Errors[i].Path) {
+			return false
+		}
+	}
+	return a.Data == nil || zzDeepEqual(a.Data, b.Data)
+}
 
 func zzSameResult(a, b *Result) bool {
 	if len(a.Errors) != len(b.Errors) {
 		return false
+	}
+	for i := range a.Errors {
+		if a.Errors[i].Message != b.Errors[i].Message || len(a.Errors[i].Path) != len(b.Errors[i].Path) {
+			return false
+		}
+		if len(a.Errors[i].Locations) != len(b.Errors[i].Locations) {
+			return false
+		}
+		for j := range a.Errors[i].Locations {
+			if a.Errors[i].Locations[j] != b.Errors[i].Locations[j] {
+				return false
+			}
+		}
 	}
 	if (a.Data == nil) != (b.Data == nil) {
 		return false
@@ -77,27 +132,35 @@ func zzSameResult(a, b *Result) bool {
 
 // zzC06Step serves one request through the cache and compares with Do.
 func zzC06Step(c *PlanCache, schema *Schema, maxEntries int, normalize bool, qi int, text string) {
-	want := Do(Params{Schema: *schema, RequestString: text})
-	pr := c.Get(schema, text, "")
+	op := zzPoolOp(qi)
+	want := Do(Params{Schema: *schema, RequestString: text, OperationName: op})
+	pr := c.Get(schema, text, op)
 	var got *Result
 	if pr.Plan != nil {
 		got = ExecutePlan(pr.Plan, ExecuteParams{Schema: *schema, Args: pr.SynthArgs})
 	} else {
 		got = &Result{Errors: pr.Errors}
 	}
-	zzAssert(zzSameResult(want, got), "response through the plan cache differs from Do")
+	if !zzSameResult(want, got) {
+		if normalize && zzSameResultNoLoc(want, got) {
+			// recorded defect: with Normalize a plan is shared by requests whose literals have
+			// different lengths, and error locations are those of the request that built it
+			zzKnown("KF-C06-locations")
+		}
+		zzFail("response through the plan cache differs from Do")
+	}
 	if c != nil {
 		zzAssert(len(c.entries) <= maxEntries, "cache holds more entries than configured")
 		zzAssert(c.order.Len() == len(c.entries), "LRU list and index disagree")
 	}
 }
 
-var zzC06Concrete = []int{2, 3, 4, 5, 7, 8, 9, 10, 11, 13, 14, 15}
+var zzC06Concrete = []int{2, 3, 4, 5, 7, 8, 9, 10, 11, 13, 14, 15, 16, 17, 18, 19, 20, 21, 22, 23, 24, 25}
 
 // ZZ_C06_pairs: histories q0, q1, [Reset], q0 over the literal-free pool, every
 // cache size 1..2, Normalize on and off, nil cache.
 func ZZ_C06_pairs() {
-	w := &zzWorld{}
+	w := &zzWorld{hook: zzFailYnn}
 	schema := zzBuildSchema(w)
 	cfg := zzChoice("cfg", 5)
 	normalize := cfg == 1 || cfg == 3
@@ -118,7 +181,7 @@ func ZZ_C06_pairs() {
 	}
 	zzC06Step(c, &schema, maxEntries, normalize, q0, zzPoolQuery(q0, "2"))
 	// a same-shape schema with different pointers must not be served the first schema's plans
-	w2 := &zzWorld{}
+	w2 := &zzWorld{hook: zzFailYnn}
 	schema2 := zzBuildSchema(w2)
 	zzC06Step(c, &schema2, maxEntries, normalize, q1, zzPoolQuery(q1, "3"))
 	zzCover("end")
@@ -170,4 +233,11 @@ func ZZ_C06_original_untouched() {
 	after := printer.Print(doc).(string)
 	zzAssert(before == after, "normalizeDocument modified the original document")
 	zzCover("end")
+}
+
+func zzFailYnn(parent, field string, p ResolveParams) (interface{}, error, bool) {
+	if field == "ynn" {
+		return nil, errors.New("boom"), true
+	}
+	return nil, nil, false
 }
